@@ -1,2 +1,17 @@
-(* C10 placeholder: statements follow with Model/StackProto.v *)
-From RT Require Import Model.StackTrace.
+(* C10 -- a handle's view is one committed snapshot and stays readable under churn.
+   Statements only.  [c10_ok] (Model/StackTrace.v), on EVERY schedule of the
+   protocol model (crashes included): every read through a handle shows exactly
+   the first k committed transactions (one committed version of tables.list,
+   never a mixture), k never decreases for that handle, the 'shared' ref has the
+   value of the k-th; no read fails; after every call the handle holds open
+   readers only, and the names it holds are one version tables.list really had.
+   A first load that loses every race reports an error instead of an empty stack. *)
+From Coq Require Import List NArith Arith Bool.
+From RT Require Import Model.StackTrace Model.StackProto Proofs.StackInvProofs Proofs.SnapshotProofs.
+Import ListNotations.
+
+Theorem C10_snapshot : forall size_oracle attempts tabs scripts sched,
+  init_ok tabs -> Forall (fun s => forallb modelled s = true) scripts ->
+  c10_ok (trace_of size_oracle attempts tabs scripts sched) = true.
+Proof. exact c10_all_traces. Qed.
+Print Assumptions C10_snapshot.
